@@ -40,6 +40,9 @@ def run(tier, seed, only=None):
                 for k in range(nreps):
                     h = rep[0]["h"]
                     cases.append({"id": "%s-repeat-f%d-%d" % (drv, nf, k), "h": h, "ev": True, "viz": (nf % 2 == 0), "nfiles": nf, "driver": drv})
+            # the same repetition for a project that emits no events (no events.ts, empty events hash)
+            for nf in (1, 3):
+                cases.append({"id": "%s-repeat-noev-f%d" % (drv, nf), "h": rep[0]["h"], "ev": False, "viz": (nf == 3), "nfiles": nf, "driver": drv})
             fh, _ = P.gen_histories("Gen_Pipeline_force_%s" % drv)
             for i, h in enumerate(fh):
                 # tamper with a binding before the last run so that "rewritten" is observable in content
